@@ -21,7 +21,9 @@ RULE = ("T in {1,2,3,5,7,60,300} x (t0,t1) on a grid of step T/4 over [0,4T] shi
 EXHAUSTIVE = {"quick": True, "thorough": True}
 TPS = 1000000
 
-POOL = ["", "k", "k1", "None", "sekret", "ž", "a b", "0", "13", "c", "0c", "Mozilla/5.0 (X11)"]
+POOL = ["", "k", "k1", "None", "sekret", "ž", "a b", "0", "13", "c", "0c", "Mozilla/5.0 (X11)",
+        # strings that differ only in white space at their edges, or in letter case
+        " ", " k", "k ", "k\n", "\tk", "\u00a0k", "K", "sekret ", "Sekret"]
 
 
 def mk(T, t0, t1, s0, c0, s1, c1):
